@@ -232,21 +232,28 @@ def run_case(case):
     if case["batch"]:
         objs, dic2 = tt.load(phylo.likelihood_json(c))
         like2 = dic2["like"]
-        rows = torch.stack([bl0 * 0.3, bl0 * 1.5])
+        factors = (0.3, 1.5) if case["seed"] % 2 else (0.05, 1.0, 1.5)  # samples whose likelihoods are hundreds of orders of magnitude apart
+        rows = torch.stack([bl0 * f for f in factors])
         dic2["tree.blens"].tensor = rows
         refs = []
-        for f in (0.3, 1.5):
+        for f in factors:
             c2 = dict(c)
             c2["branch_lengths"] = (bl0 * f).tolist()
             refs.append(ref_eval(c2))
             C["ref_evaluations"] += 1
         val = _lib(like2, "batched log-likelihood").reshape(-1)
         C["batched"] += 1
-        if val.shape[0] != 2:
+        if val.shape[0] != len(factors):
             V.append(tt.viol("C03:batched-shape", "batched evaluation returned shape %s" % (val.shape,), case=case))
         else:
-            for i in range(2):
+            for i in range(len(factors)):
                 compare(val[i], refs[i][0], "batched-row@%d" % i, refs[i][1])
+            # the same batch again (after the switch every pass is the fully rescaled one)
+            dic2["tree.blens"].tensor = rows.clone()
+            val = _lib(like2, "batched log-likelihood").reshape(-1)
+            C["batched"] += 1
+            for i in range(len(factors)):
+                compare(val[i], refs[i][0], "batched-row-second-evaluation@%d" % i, refs[i][1])
     near = abs(got - case["target"]) < 3
     fp = "%s:%g:%d" % (tag, case["scale"], N) if near else None
     sample = {"config": case, "located_N": N, "min_site_log10_likelihood": got, "reference": ref}
